@@ -114,8 +114,11 @@ fn random(t: Tier) -> BoxedStrategy<Case> {
         vec(line, 1..8),
         prop_oneof![Just(Route::Builder), Just(Route::Raw), Just(Route::Doc)],
         0u8..3,
+        // optional features next to the range flags (each fine alone): embedded contents (short
+        // lines, so that a shifted column lies beyond the original line), root, ignore list, debug id, file
+        prop_oneof![2 => Just(0u8), 3 => any::<u8>()],
     )
-        .prop_map(|(ls, route, pad)| {
+        .prop_map(|(ls, route, pad, feat)| {
             let mut lines = vec![];
             let mut l = 0u32;
             for (gap, toks, force) in ls {
@@ -164,7 +167,23 @@ fn random(t: Tier) -> BoxedStrategy<Case> {
                 lines.push((l, out));
                 l += 1;
             }
-            Case { map: mk_map(&lines, route), pad }
+            let mut map = mk_map(&lines, route);
+            if feat & 1 != 0 {
+                map.contents = vec![Some("ab\ncd\n\nlonger line of original text".into()), if feat & 2 != 0 { Some("x".into()) } else { None }];
+            }
+            if feat & 4 != 0 {
+                map.root = Some(if feat & 8 != 0 { "webpack:///src/".into() } else { "r".into() });
+            }
+            if feat & 16 != 0 {
+                map.ignore = vec![1];
+            }
+            if feat & 32 != 0 {
+                map.debug_id = Some("dfb8e43a-f242-3d73-a453-aeb6a777ef75".into());
+            }
+            if feat & 64 != 0 {
+                map.file = Some("out.js".into());
+            }
+            Case { map, pad }
         })
         .boxed()
 }
@@ -172,6 +191,7 @@ fn random(t: Tier) -> BoxedStrategy<Case> {
 fn check_lookups(sm: &SourceMap, obs: &mut Obs) -> Result<(), String> {
     let toks: Vec<_> = sm.tokens().map(|t| (t.get_dst(), t.get_raw_token())).collect();
     let pos: Vec<(u32, u32)> = toks.iter().map(|t| t.0).collect();
+    let as_decoded = sourcemap::DecodedMap::Regular(sm.clone());
     let mut queries: Vec<(u32, u32)> = vec![(0, 0), (u32::MAX, u32::MAX)];
     for (i, &(l, c)) in pos.iter().enumerate() {
         let next = pos.iter().skip(i + 1).find(|p| **p > (l, c)).copied();
@@ -190,6 +210,25 @@ fn check_lookups(sm: &SourceMap, obs: &mut Obs) -> Result<(), String> {
         obs.inner_evals += 1;
         let got = guard(|| sm.lookup_token(q.0, q.1).map(|t| (t.get_raw_token(), t.get_src_line(), t.get_src_col(), t.get_dst(), t.is_range())))
             .map_err(|p| format!("lookup_token{q:?}: {p}"))?;
+        // every way of reading the looked-up token's original position tells the same, and the
+        // DecodedMap-level lookup answers like the map itself
+        let views = guard(|| {
+            let t = sm.lookup_token(q.0, q.1)?;
+            let tuple = t.to_tuple();
+            let d = as_decoded.lookup_token(q.0, q.1).map(|t| (t.get_raw_token(), t.get_src(), t.get_dst()));
+            Some(((t.get_src_line(), t.get_src_col()), t.get_src(), (tuple.1, tuple.2), (t.get_raw_token(), t.get_src(), t.get_dst()), d))
+        })
+        .map_err(|p| format!("lookup_token{q:?} (token accessors): {p}"))?;
+        if let Some((single, pair, tuple, own, via_decoded)) = views {
+            if single != pair || single != tuple {
+                return Err(format!(
+                    "lookup_token{q:?}: (get_src_line, get_src_col) = {single:?}, get_src() = {pair:?}, to_tuple() = {tuple:?} disagree on one token"
+                ));
+            }
+            if via_decoded != Some(own) {
+                return Err(format!("DecodedMap::lookup_token{q:?} = {via_decoded:?}, SourceMap::lookup_token gives {own:?}"));
+            }
+        }
         let want = ref_lookup_index(&pos, q);
         match (got, want) {
             (None, None) => {}
